@@ -61,7 +61,7 @@ Proof.
 Qed.
 
 Lemma kill_group_leaders_in : forall tb, leaders_in tb = true -> leaders_in (kill_group tb) = true.
-Proof. intros; apply map_forallb_same; auto. intros p Hp. destruct (ingrp p) eqn:E; unfold set_dead; simpl; auto. Qed.
+Proof. intros; apply map_forallb_same; auto. intros p Hp. destruct (ingrp p) eqn:E; unfold set_dead; simpl; rewrite ?E; auto. Qed.
 Lemma term_leader_leaders_in : forall tb, leaders_in tb = true -> leaders_in (term_leader tb) = true.
 Proof. intros; apply map_forallb_same; auto. intros p Hp. destruct (lead p && negb (pign p)); unfold set_dead; simpl; auto. Qed.
 Lemma term_leader_no_ingroup : forall tb, no_ingroup_alive tb = true -> no_ingroup_alive (term_leader tb) = true.
@@ -100,3 +100,143 @@ Proof.
   unfold no_ingroup_alive, survivors; induction tb as [|p r IH]; simpl; auto.
   intros H; apply andb_true_iff in H as [H1 H2]. apply negb_true_iff in H1. rewrite H1. auto.
 Qed.
+
+(* holders of the pipes are in the group, now and for everything still to be spawned *)
+Definition pok (p : proc) : bool := implb (holds p) (ingrp p) && forallb (ok (holds p) (ingrp p)) (ptodo p).
+Definition tbl_ok (tb : list proc) : bool := forallb pok tb.
+
+Lemma pstep_tbl_ok : forall i tb tb', tbl_ok tb = true -> pstep i tb = Some tb' -> tbl_ok tb' = true.
+Proof.
+  unfold pstep, tbl_ok; intros i tb tb' H Hs.
+  destruct (nth_error tb i) as [p|] eqn:En; [|discriminate].
+  pose proof (forallb_nth _ _ _ _ H En) as Hp.
+  destruct (alive p); [|discriminate].
+  destruct (ptodo p) as [|k ks] eqn:Et.
+  - destruct (pexits p); [|discriminate]. inversion Hs; subst. apply forallb_upd; auto.
+  - inversion Hs; subst. unfold pok in Hp. rewrite Et in Hp. simpl in Hp.
+    apply andb_true_iff in Hp as [A B]. apply andb_true_iff in B as [B C].
+    rewrite forallb_app. apply andb_true_iff; split.
+    + apply forallb_upd; auto. unfold pok; simpl. now rewrite A, C.
+    + simpl. rewrite andb_true_r. destruct k as [a b c d kids]. unfold pok; simpl. simpl in B. exact B.
+Qed.
+Lemma kill_group_tbl_ok : forall tb, tbl_ok tb = true -> tbl_ok (kill_group tb) = true.
+Proof. intros; apply map_forallb_same; auto. intros p Hp. destruct (ingrp p) eqn:E; auto. Qed.
+Lemma term_leader_tbl_ok : forall tb, tbl_ok tb = true -> tbl_ok (term_leader tb) = true.
+Proof. intros; apply map_forallb_same; auto. intros p Hp. destruct (lead p && negb (pign p)); auto. Qed.
+Lemma tbl_ok_no_holder : forall tb, tbl_ok tb = true -> no_ingroup_alive tb = true -> no_holder tb = true.
+Proof.
+  unfold tbl_ok, no_ingroup_alive, no_holder; induction tb as [|p r IH]; simpl; auto.
+  intros H1 H2. apply andb_true_iff in H1 as [A1 A2]. apply andb_true_iff in H2 as [B1 B2].
+  rewrite IH by auto. rewrite andb_true_r. unfold pok in A1. apply andb_true_iff in A1 as [A1 _].
+  destruct (alive p), (holds p), (ingrp p); simpl in *; auto.
+Qed.
+Lemma root_tbl_ok : forall t, no_outside_holder t = true -> tbl_ok [root_proc t] = true.
+Proof. intros [a b c d kids] H. unfold tbl_ok, pok; simpl. simpl in H. now rewrite H. Qed.
+
+Lemma group_kill_is_final_l : forall tb acts,
+  no_ingroup_alive (fold_left (fun t i => match pstep i t with Some t' => t' | None => t end) acts (kill_group tb)) = true.
+Proof.
+  intros tb acts. generalize (kill_group_no_ingroup tb). generalize (kill_group tb) as t.
+  induction acts as [|i r IH]; intros t H; simpl; auto.
+  apply IH. destruct (pstep i t) eqn:E; auto. eapply pstep_no_ingroup; eauto.
+Qed.
+
+(* ------------------------------------------------------------------ part 2: every run is bounded *)
+Fixpoint tw (t : tree) : nat :=
+  match t with T _ _ _ _ kids => 2 + (fix go (l : list tree) := match l with [] => 0 | k :: r => tw k + go r end) kids end.
+Definition fw := fix go (l : list tree) : nat := match l with [] => 0 | k :: r => tw k + go r end.
+Lemma tw_eq : forall a b c d kids, tw (T a b c d kids) = 2 + fw kids.
+Proof. reflexivity. Qed.
+Lemma fw_cons : forall k r, fw (k :: r) = tw k + fw r.
+Proof. reflexivity. Qed.
+
+Definition pw (p : proc) : nat := if alive p then 1 + fw (ptodo p) else 0.
+Definition work (tb : list proc) : nat := fold_right (fun p a => pw p + a) 0 tb.
+
+Lemma work_app : forall a b, work (a ++ b) = work a + work b.
+Proof. induction a as [|p r IH]; intros; simpl; auto. rewrite IH. lia. Qed.
+Lemma work_upd : forall i q tb p, nth_error tb i = Some p -> work (upd i q tb) + pw p = work tb + pw q.
+Proof.
+  intros i q tb; revert i; induction tb as [|x r IH]; intros [|j] p H; simpl in *; try discriminate.
+  - inversion H; subst. lia.
+  - specialize (IH _ _ H). lia.
+Qed.
+Lemma work_map_le : forall g tb, (forall p, pw (g p) <= pw p) -> work (map g tb) <= work tb.
+Proof. intros g tb Hg; induction tb as [|p r IH]; simpl; auto. specialize (Hg p). lia. Qed.
+Lemma work_kill_group : forall tb, work (kill_group tb) <= work tb.
+Proof. intros; apply work_map_le. intros p. destruct (ingrp p); auto. unfold pw, set_dead; simpl. lia. Qed.
+Lemma work_term_leader : forall tb, work (term_leader tb) <= work tb.
+Proof. intros; apply work_map_le. intros p. destruct (lead p && negb (pign p)); auto. unfold pw, set_dead; simpl. lia. Qed.
+Lemma work_pstep : forall i tb tb', pstep i tb = Some tb' -> work tb' < work tb.
+Proof.
+  unfold pstep; intros i tb tb' H. destruct (nth_error tb i) as [p|] eqn:En; [|discriminate].
+  destruct (alive p) eqn:Ea; [|discriminate].
+  destruct (ptodo p) as [|k ks] eqn:Et.
+  - destruct (pexits p); [|discriminate]. inversion H; subst.
+    pose proof (work_upd i (set_dead p) tb p En) as W. unfold pw in W. simpl in W. rewrite Ea, Et in W. simpl in W. lia.
+  - inversion H; subst. rewrite work_app. pose proof (work_upd i (set_todo p ks) tb p En) as W.
+    unfold pw in W. simpl in W. rewrite Ea, Et in W. rewrite fw_cons in W.
+    destruct k as [a b c d kids]. rewrite tw_eq in W. unfold work at 2. unfold pw, child_of. simpl. fold fw. lia.
+Qed.
+
+Definition stop_rem (p : spc) : nat := match p with P0 => 7 | P1 => 6 | PT => 5 | PK => 4 | P2 => 3 | P3 => 2 | P4 => 1 | PDone => 0 end.
+Definition main_rem' (m : mpc) (t : tree) : nat :=
+  match m with M0 => 17 + tw t | M1 => 16 + tw t | M2 => 4 | M3 => 3 | M4 => 2 | MDone => 0 end.
+Definition main_rem (s : st) : nat := main_rem' (mainpc s) (prog s).
+Definition user_rem (u : upc) : nat := match u with UIdle => 9 | UStop p => 1 + stop_rem p | UDone => 0 end.
+Definition mon_rem (n : npc) : nat := match n with NNone => 10 | NWait => 9 | NStop p => 1 + stop_rem p | NEnd => 0 end.
+Definition fuel (s : st) : nat :=
+  main_rem s + user_rem (userpc s) + mon_rem (monpc s) +
+  (if w_done s then 0 else 1) + (if rw_done s then 0 else 1) + work (tbl s).
+
+Lemma work_root : forall t, work [root_proc t] <= tw t.
+Proof. intros [a b c d kids]. rewrite tw_eq. unfold work, root_proc, pw; simpl. fold fw. lia. Qed.
+
+Ltac crush_step :=
+  repeat match goal with
+  | H : Some _ = Some _ |- _ => inversion H; subst; clear H
+  | H : None = Some _ |- _ => discriminate H
+  | H : context [if ?b then _ else _] |- _ => destruct b eqn:?
+  | H : context [match ?x with _ => _ end] |- _ => destruct x eqn:?
+  end.
+
+Ltac use_eqs :=
+  repeat match goal with
+  | H : mainpc ?s = _ |- _ => rewrite H in *; clear H
+  | H : userpc ?s = _ |- _ => rewrite H in *; clear H
+  | H : monpc ?s = _ |- _ => rewrite H in *; clear H
+  end.
+
+Ltac fin :=
+  unfold fuel, main_rem; simpl; use_eqs; simpl;
+  repeat match goal with |- context [if ?b then _ else _] => destruct b; simpl in * end;
+  try lia; try (rewrite ?andb_false_r in *; discriminate).
+
+Lemma step_decreases : forall s l s', step s l = Some s' -> fuel s' < fuel s.
+Proof.
+  intros s l s' H.
+  pose proof (work_root (prog s)) as WR. unfold work in WR. simpl in WR.
+  destruct l; simpl in H;
+    unfold main_step, user_step, mon_step, stop_step, watch_step, runwatch_step, proc_step in H.
+  - crush_step; pose proof (work_kill_group (tbl s)) as WK; pose proof (work_term_leader (tbl s)) as WT; fin.
+  - crush_step; pose proof (work_kill_group (tbl s)) as WK; pose proof (work_term_leader (tbl s)) as WT; fin.
+  - crush_step; pose proof (work_kill_group (tbl s)) as WK; pose proof (work_term_leader (tbl s)) as WT; fin.
+  - crush_step; pose proof (work_kill_group (tbl s)) as WK; pose proof (work_term_leader (tbl s)) as WT; fin.
+  - crush_step; pose proof (work_kill_group (tbl s)) as WK; pose proof (work_term_leader (tbl s)) as WT; fin.
+  - destruct (pstep i (tbl s)) eqn:E; [|discriminate]. inversion H; subst.
+    apply work_pstep in E. unfold fuel, main_rem; simpl. lia.
+Qed.
+
+Lemma steps_bounded : forall sched s, steps_taken s sched + fuel (run s sched) <= fuel s.
+Proof.
+  induction sched as [|l r IH]; intros s; simpl; [lia|].
+  unfold effective, exec1 at 1. specialize (IH (exec1 s l)). unfold exec1 in *.
+  destruct (step s l) eqn:E; [apply step_decreases in E|]; simpl; lia.
+Qed.
+
+Lemma fuel_init : forall sm km t, fuel (init sm km t) = 38 + tw t.
+Proof. intros; unfold fuel, main_rem; simpl. lia. Qed.
+
+Lemma run_bounded_l : forall sm km t sched, steps_taken (init sm km t) sched <= 38 + tw t.
+Proof. intros. pose proof (steps_bounded sched (init sm km t)). rewrite fuel_init in H. lia. Qed.
+
